@@ -92,9 +92,13 @@ Definition pton6_fields (s' : str) : bool :=
 Definition pton6b (s : str) : bool :=
   match s with
   | [] => false
-  | 58 :: 58 :: t => pton6_fields (58 :: t)
-  | 58 :: _ => false
-  | _ => pton6_fields s
+  | c :: t =>
+      if c =? 58 then
+        match t with
+        | c2 :: _ => if c2 =? 58 then pton6_fields t else false
+        | [] => false
+        end
+      else pton6_fields s
   end.
 
 (* socket.inet_pton(family, s): bytes | OSError | ValueError (argument conversion) *)
